@@ -8,6 +8,8 @@ import (
 	"encoding/json"
 	"fmt"
 	"io"
+	"os"
+	"os/exec"
 	"strings"
 
 	"github.com/Syuparn/pangaea/parser"
@@ -24,6 +26,8 @@ func init() {
 			"(thorough: every size 0..4200 at three positions, +-64 windows elsewhere) and all marks at once; 7 token kinds (string, raw string, embedded-string piece, comment, identifier, symbol, int) x the same lengths; " +
 			"whole programs of <=4 padding lines (comment, blank, spaces, indented comment, bare #) around nothing or around one statement at every position, with and without a line break after the last line; " +
 			"reader chunkings: constant chunk sizes {1,2,3,5,7,64,1023,1024,1025,2047,2048,2049} and every schedule with <=1 (thorough 2) short reads among the first 6 reads, on programs of 0.5-5 KiB; oracle: AST string equals the unpadded/unchunked parse with the token text intact; " +
+			"two more padding kinds put the padding on the line itself (k spaces/tabs after the break = the next token starts in column k+1; k spaces/tabs before the break), sizes around 256, 1 KiB, 2 KiB, 4 KiB, 8 KiB at every mark; for paddings <= 8 KiB the padded program is also evaluated and must print and return what the unpadded one does (3 base programs show the order of keyword arguments, keyword defaults and pairs); " +
+			"script files with LF / CRLF / CR line breaks, a raw string spanning lines, a comment and padding of 0..8 KiB are run by the real binary; " +
 			"non-trivial = padding/length >= 1000 bytes or a chunked read; distinct = distinct (program, position, kind, size) / (program, schedule)",
 		Assumptions: []string{
 			"ast.Program.String() is the observable; comments are not part of it",
@@ -46,6 +50,10 @@ var bases = []string{
 	"[1, 2, 3]§|@{|i| i * 2}§|.p§",
 	"x := 5§x§|.S§|.p§y := x§",
 	"p := {a: {§b: [§1§]§}§}§p§",
+	// programs whose evaluation shows the order in which keyword arguments, keyword defaults and pairs are taken
+	"t := {|x| x.p; x}§f := {|a: 0, b: 0| [a, b]}§f(§a: t(1),§b: t(2)§)§f(§b: t(3),§a: t(4)§)§",
+	"t := {|x| x.p; x}§g := {|a: t(3),§b: t(4)| [a, b]}§g()§f := {|a: 0| a}§f(§a: t(5),§a: t(6)§)§",
+	"t := {|x| x.p; x}§o := {§a: t(1),§b: t(2),§a: t(3)§}§m := %{§t(1): t(2),§t(1): t(3)§}§[o, m]§",
 }
 
 type tcase struct {
@@ -85,6 +93,10 @@ func padding(kind string, k int) string {
 			}
 		}
 		return sb.String()
+	case "indent": // the line break followed by k spaces / tabs: the next token starts in column k+1
+		return "\n" + strings.Repeat(" \t", k/2) + strings.Repeat(" ", k%2)
+	case "trail": // k spaces / tabs before the line break
+		return strings.Repeat("\t ", k/2) + strings.Repeat(" ", k%2) + "\n"
 	case "mixed":
 		var sb strings.Builder
 		sb.WriteString("\n")
@@ -295,10 +307,22 @@ func gen(thorough bool, emit func(tcase)) {
 				}
 			}
 		}
-		for _, kind := range []string{"blank", "comment", "mixed"} {
+		for m := 0; m < marks; m++ {
+			for _, kind := range []string{"indent", "trail"} {
+				for _, k := range []int{1, 2, 7, 8, 100, 255, 256, 257, 1016, 1022, 1023, 1024, 1025, 1032, 2047, 2048, 2049, 4095, 4096, 4097, 8192} {
+					emit(tcase{Mode: "pad", Base: bi, Mark: m, Kind: kind, Size: k})
+				}
+			}
+		}
+		for _, kind := range []string{"blank", "comment", "mixed", "indent", "trail"} {
 			for _, k := range []int{0, 1, 2, 100, 1023, 1024, 1025, 2047, 2048, 2049, 4096} {
 				emit(tcase{Mode: "pad", Base: bi, Mark: -1, Kind: kind, Size: k})
 			}
+		}
+	}
+	for _, nl := range []string{"LF", "CRLF", "CR"} {
+		for _, k := range []int{0, 8, 1000, 1024, 2048, 4096, 8192} {
+			emit(tcase{Mode: "file", Kind: nl, Size: k})
 		}
 	}
 	for _, tkd := range tokenKinds {
@@ -400,6 +424,17 @@ func check(c *core.Ctx, t tcase) {
 				pos = "all"
 			}
 			viol("padding/"+t.Kind+"/"+bucket(t.Size), fmt.Sprintf("base %d (%q) mark %s padded with %d bytes of %s", t.Base, bases[t.Base], pos, t.Size, t.Kind), want, got+e, "")
+		} else if t.Size <= 8192 {
+			// "the same program": what it prints and returns is the same as well (positions of the tokens differ)
+			o0, o1 := c.R().EvalSrc(base, ""), c.R().EvalSrc(src, "")
+			c.Outcome("pad-eval:" + map[bool]string{true: "ok", false: "differs"}[o0.Key() == o1.Key()])
+			if o0.Key() != o1.Key() {
+				pos := fmt.Sprint(t.Mark)
+				if t.Mark == -1 {
+					pos = "all"
+				}
+				viol("padding-changes-evaluation/"+t.Kind+"/"+bucket(t.Size), fmt.Sprintf("base %d (%q) mark %s padded with %d bytes of %s", t.Base, bases[t.Base], pos, t.Size, t.Kind), o0.Key(), o1.Key(), "")
+			}
 		}
 	case "token":
 		var tkd tokenKind
@@ -423,6 +458,35 @@ func check(c *core.Ctx, t tcase) {
 				return s
 			}
 			viol("token-length/"+t.Kind+"/"+bucket(t.Size), fmt.Sprintf("%s token of %d bytes", t.Kind, t.Size), trim(want), trim(got)+e, "")
+		}
+	case "file":
+		// a script file run by the real binary: raw strings, comments and padding with LF / CRLF / CR line breaks
+		nl := map[string]string{"LF": "\n", "CRLF": "\r\n", "CR": "\r"}[t.Kind]
+		raw := "ab" + nl + "cd" + nl + nl + "e"
+		pad := strings.ReplaceAll(padding("mixed", t.Size), "\n", nl)
+		src := "s := `" + raw + "`" + pad + "c := \"x\" # comment" + nl + "[s.len, s == \"ab\" + " + fmt.Sprintf("%q", nl) + " + \"cd\" + " + fmt.Sprintf("%q", nl+nl) + " + \"e\", c]" + pad + "|.p" + nl
+		want := fmt.Sprintf("[%d, true, \"x\"]\n", len(raw))
+		cli := os.Getenv("PANMC_CLI")
+		if cli == "" {
+			c.HarnessError("PANMC_CLI is not set")
+			return
+		}
+		f, err := os.CreateTemp(os.Getenv("PANMC_SCRATCH"), "c16file*.pangaea")
+		if err != nil {
+			c.HarnessError("%v", err)
+			return
+		}
+		defer os.Remove(f.Name())
+		f.WriteString(src)
+		f.Close()
+		cmd := exec.Command("timeout", "60", cli, f.Name())
+		var so, se strings.Builder
+		cmd.Stdout, cmd.Stderr = &so, &se
+		cmd.Run()
+		c.Nontrivial(1)
+		c.Outcome("file:" + map[bool]string{true: "ok", false: "differs"}[so.String() == want])
+		if so.String() != want {
+			viol("script-file/"+t.Kind+"/"+bucket(t.Size), fmt.Sprintf("script file with %s line breaks, a raw string spanning lines and %d bytes of padding", t.Kind, t.Size), fmt.Sprintf("stdout %q", want), fmt.Sprintf("stdout %q stderr %.200q", so.String(), se.String()), "")
 		}
 	case "lines":
 		// a program made of padding lines only / a statement surrounded by padding lines, with and without a final line break
